@@ -1,6 +1,7 @@
 """R20 EXC-FLOW, R21 GUARD-BYPASS, R22 BOUND-KIND, R33 TRUNC-GUARD (C09, C17,
 C19)."""
 import ast
+import re
 
 from ..fdai import Engine, Plugin, freeze, thaw
 from ..model import (npos, AnalysisError, ClassInfo, U, walk_no_nested, parent,
@@ -685,3 +686,88 @@ def r33_trunc_guard(ctx):
 
 RULES = {"R20": r20_exc_flow, "R21": r21_guard_bypass, "R22": r22_bound_kind,
          "R33": r33_trunc_guard}
+
+
+# ------------------------------------------------------------------- R53
+_STR_METHODS = {"startswith", "endswith", "split", "rsplit", "strip", "lstrip",
+                "rstrip", "replace", "splitlines", "upper", "lower",
+                "partition", "rpartition", "find", "index"}
+
+
+def r53_string_index_guard(ctx):
+    """Text handed to the parsers, the dumper and the command line may be
+    empty (a date followed by a bare `T`, an empty offset): indexing a string
+    with a constant position raises IndexError - not a ValueError - unless
+    the path has established that the string is not empty (its truthiness,
+    a startswith/endswith/`in` test, a length test)."""
+    rep = ctx.rep
+    rule = "R53.string-index-guard"
+    P = ("C09",)
+    from ..flow import path_conds
+    rep.need_anchor(rule, "functions")
+    n_f = 0
+    sites = 0
+    for f in ctx.model.all_functions():
+        if f.module.name not in ("parsers", "dumpers", "datetimeoper",
+                                 "main", "parser_spec"):
+            continue
+        n_f += 1
+        strlike = set()
+        for n in walk_no_nested(f.node):
+            if isinstance(n, ast.Call) and isinstance(
+                    n.func, ast.Attribute) and n.func.attr in _STR_METHODS \
+                    and isinstance(n.func.value, ast.Name):
+                strlike.add(n.func.value.id)
+        for n in walk_no_nested(f.node):
+            if not (isinstance(n, ast.Subscript) and isinstance(
+                    n.ctx, ast.Load) and isinstance(n.slice, (
+                        ast.Constant, ast.UnaryOp)) and isinstance(
+                            n.value, ast.Name)):
+                continue
+            try:
+                idx = ast.literal_eval(n.slice)
+            except Exception:
+                continue
+            if not isinstance(idx, int) or isinstance(idx, bool):
+                continue
+            nm = n.value.id
+            try:
+                ts = set(ctx.types_in(f, n.value))
+            except Exception:
+                ts = set()
+            is_str = (ts and ts <= {"str", "None"}) or (
+                nm in strlike and not (ts & {"list", "tuple", "dict"}))
+            if not is_str:
+                continue
+            sites += 1
+            guarded = False
+            for t, pol in path_conds(n):
+                tt = U(t)
+                if not pol:
+                    if tt in ("not " + nm,) or re.fullmatch(
+                            r"len\(%s\) (==|<|<=) \d+" % re.escape(nm), tt):
+                        guarded = True
+                    continue
+                if tt == nm or re.search(
+                        r"\b%s\.(startswith|endswith)\(" % re.escape(nm),
+                        tt) or re.search(
+                            r"^'.+' in %s\b" % re.escape(nm), tt) or \
+                        re.search(r"len\(%s\) (>|>=|==) [1-9]" %
+                                  re.escape(nm), tt):
+                    guarded = True
+            # a BoolOp guard inside the same test: `s and s[0] == ...`
+            rep.check(guarded, rule, ctx.fkey(f, n, "non-empty"), f.loc(n),
+                      "%s is indexed only where it is known to be "
+                      "non-empty" % nm,
+                      "%s indexes the string `%s` at a constant position "
+                      "with nothing on the path showing it is non-empty: an "
+                      "empty text (e.g. a date followed by a bare 'T') "
+                      "raises IndexError, which is not a ValueError" % (
+                          f.qual, U(n)), P)
+    rep.anchor(rule, "functions", n_f)
+    rep.ok(rule, "package:string-indexing", "-",
+           "%d constant-position string indexings examined in %d functions"
+           % (sites, n_f), P, nontrivial=False)
+
+
+RULES["R53"] = r53_string_index_guard
